@@ -20,7 +20,10 @@ def make_cmds(rnd, kind, S, params, tier):
     return cmds, names, {"loadopt": opt}
 
 
+from props import gen_iters, gen_hash
+from props.subgen import Sub
 CFG = DC.Config("C01", D.ALL_KINDS, make_cmds, nsets=(9, 60), big=True,
+                components=[gen_hash, Sub(gen_iters, ["bsbi_samples", "bsbi_index", "blocks"])],
                 rule="all 13 kinds x boundary-directed string sets (n around multiples of the bucket sizes, ladders of proper "
                      "prefixes, shared prefixes and lengths >= 128, single characters, repetitive and dominant-symbol text) x "
                      "build parameters x {fresh, reloaded via generic loader, own loader (thorough)}; every ID 1..n extracted "
